@@ -138,6 +138,17 @@ def run_case(case) -> dict:
             got_p, got_h = obj.members[i].protected or {}, obj.members[i].header or {}
         if got_p != want_p or got_h != want_h:
             f[f"C07:B:header-differs:{tag}"] = f"joserfc parsed protected={got_p!r} header={got_h!r}; signed {want_p!r} / {want_h!r}"
+    # two-step API (extract, then validate) with another token extracted in between: the signing input is that of THIS token
+    if isinstance(token, str) and plan["b64"] is None and not f:
+        from joserfc import jws
+        try:
+            o1 = jws.extract_compact(token.encode())
+            jws.extract_compact(rjws.make_compact(b'{"alg":"HS256"}', b"an unrelated token", "HS256", {"kty": "oct", "k": b"k" * 32}).encode())
+            ok = jws.validate_compact(o1, jp.jose_keyarg(plan, keymode, False, case["form"], "verify"), algorithms=ALL_JWS)
+            if not ok or o1.payload != payload:
+                f[f"C07:B:extract-then-validate-fails:{tag}"] = "extract_compact(token); extract_compact(other); validate_compact(first) does not confirm the first token"
+        except Exception as e:
+            f[f"C07:B:extract-then-validate-raises:{tag}:{exc_key(e)}"] = f"{type(e).__name__}: {e}"
     return f
 
 
